@@ -27,7 +27,14 @@ var svcMethods = map[string]struct{ clientStream, serverStream bool }{
 func expectReject(r *http.Request) string {
 	cts := r.Header.Values("Content-Type")
 	if len(cts) > 1 {
-		return "unclassifiable-content-type"
+		// (only for a path that names a configured method: a request for a path that matches
+		// nothing is the unknown-endpoint handler's business whatever else is wrong with it - C13)
+		if name, ok := strings.CutPrefix(r.URL.Path, "/verif.v1.Svc/"); ok {
+			if _, known := svcMethods[name]; known {
+				return "unclassifiable-content-type"
+			}
+		}
+		return ""
 	}
 	if len(cts) == 0 {
 		return ""
